@@ -87,7 +87,7 @@ class C02(Prop):
                "aioswitcher.api:SwitcherType1Api.create_schedule", "aioswitcher.api:SwitcherType2Api.set_position",
                "aioswitcher.api:SwitcherApi.stop", "aioswitcher.device.tools:timedelta_to_hexadecimal_seconds",
                "aioswitcher.device.tools:string_to_hexadecimale_device_name", "aioswitcher.schedule.tools:time_to_hexadecimal_timestamp"]
-    min_evaluations = {"quick": 8_000, "thorough": 150_000}
+    min_evaluations = {"quick": 30_000, "thorough": 300_000}
     budget_s = {"quick": 60, "thorough": 900}
 
     def selftest(self):
@@ -103,7 +103,7 @@ class C02(Prop):
         await self.rig.close()
 
     def cases(self, tier, seed, shard, nshards):
-        n = {"quick": 2880, "thorough": 60_000}[tier]
+        n = {"quick": 11_520, "thorough": 115_200}[tier]
         for i in range(shard, n, nshards):
             yield {"i": i, "seed": seed}
 
